@@ -330,6 +330,10 @@ func newEventFromUntrustedJSONV1(eventJSON []byte, roomVersion IRoomVersion) (PD
 	if err := checkID(res.eventFields.RoomID, "room", '!'); err != nil {
 		return nil, err
 	}
+	if _, err := spec.NewRoomID(res.eventFields.RoomID); err != nil {
+		// RoomID() relies on the room ID being parseable
+		return nil, err
+	}
 
 	// We know the JSON must be valid here.
 	eventJSON = CanonicalJSONAssumeValid(eventJSON)
@@ -378,6 +382,10 @@ func newEventFromTrustedJSONV1(eventJSON []byte, redacted bool, roomVersion IRoo
 	if err := checkID(res.eventFields.RoomID, "room", '!'); err != nil {
 		return nil, fmt.Errorf("RoomID is invalid: %w", err)
 	}
+	if _, err := spec.NewRoomID(res.eventFields.RoomID); err != nil {
+		// RoomID() relies on the room ID being parseable
+		return nil, err
+	}
 
 	res.eventJSON = eventJSON
 	res.roomVersion = roomVersion.Version()
@@ -392,6 +400,10 @@ func newEventFromTrustedJSONWithEventIDV1(eventID string, eventJSON []byte, reda
 	}
 
 	if err := checkID(res.eventFields.RoomID, "room", '!'); err != nil {
+		return nil, err
+	}
+	if _, err := spec.NewRoomID(res.eventFields.RoomID); err != nil {
+		// RoomID() relies on the room ID being parseable
 		return nil, err
 	}
 
